@@ -404,6 +404,12 @@ class CFG:
     cut = [(test, m, lab) for m, lab in self.succ[test] if lab == label]
     return b not in self.reach([self.entry], avoid_edges=cut) and b is not test
 
+  def exc_edges(self) -> list:
+    """Implicit-exception edges (to exclude when a rule speaks about non-failing paths)."""
+    if getattr(self, '_exc', None) is None:
+      self._exc = [(a, m, lab) for a in self.nodes for m, lab in self.succ[a] if lab == 'exc']
+    return self._exc
+
   def loop_body_nodes(self, loop_stmt) -> set:
     out = set()
     for st in loop_stmt.body:
